@@ -4,6 +4,7 @@ CONSTANTS
    DestNames <- Dests_ab
    MaxSet = 2
    LvlFirst = {3}
+   LvlMid = {3}
    ClsFirst <- Cls_26
    LvlLast = {4}
    FullLast = FALSE
